@@ -7,6 +7,7 @@
    channel directions, the caller's first hops (`ChannelDetails`), private hops of BOLT 11 route hints and
    blinded payment paths (ONE candidate per path, from the introduction node to the payee). -/
 import LdkModel.Model.RouteFees
+import LdkModel.Generated.RouterFirstHop
 namespace Ldk.RouteValid
 open Ldk Ldk.Router Ldk.RouteFees
 
@@ -143,6 +144,21 @@ def Chan.minMsat (c : Chan) : Nat := candidate_htlc_minimum_msat c.kind c.htlcMi
 /-- what the channel can carry at most: the generated `max_htlc_from_capacity` at saturation power 0
     (= min(htlc_maximum_msat, capacity)) -/
 def Chan.limit (c : Chan) : Nat := max_htlc_from_capacity c.effectiveCapacity 0
+
+/-- THE FirstHop CANDIDATE the router builds from one supplied `ChannelDetails` (get_route: `first_hop_targets` →
+    `CandidateRouteHop::FirstHop(FirstHopCandidate { details, … })`), payer `src` → counterparty `dst`:
+    ids by `firstHopIds` (generated get_outbound_payment_scid); the raw minimum / maximum are what the TRANSLATED
+    FirstHop arms of CandidateRouteHop::htlc_minimum_msat / effective_capacity read from the record
+    (Generated/RouterFirstHop.lean) — NOT a field picked by hand. `usable` = ChannelDetails::is_usable.
+    `none` for a channel without any scid. The driver builds every `f` candidate of an op line with this function. -/
+def firstHopChan (d : FirstHopDetails) (src dst : Nat) (usable : Bool) : Option Chan :=
+  match firstHopIds d.outbound_scid_alias d.short_channel_id with
+  | none => none
+  | some (scid, alt) =>
+    some { scid := scid, src := src, dst := dst, enabled := usable,
+           htlcMin := first_hop_htlc_minimum_msat d,
+           htlcMax := max_htlc_from_capacity (first_hop_effective_capacity d) 0,
+           cap := none, base := 0, prop := 0, cltv := 0, kind := .firstHop, alt := alt, unbounded := false }
 
 /-- amount of the HTLC over the first hop of a (sub)path: `fee_msat`s from there to the end -/
 def pathAmount : RPath → Nat
